@@ -24,8 +24,8 @@ def fmt_name(tag, body):
         a = {1: 'rsa', 17: 'dsa', 16: 'elg', 19: 'ecdsa', 22: 'eddsa', 18: 'ecdh'}.get(body[5])
         pre = 'sec_' if tag == 5 else 'ssb_'
         # the S2K usage octet sits after the algorithm-specific public part: offer every secret-key format of that algorithm
-        return a and [pre + a + sfx for sfx in ('_plain', '_254', '_255', '_254_salted', '_254_simple', '_gnu')]
-    return {8: 'compressed', 9: 'sed', 10: 'marker', 11: 'literal', 13: 'userid', 17: 'uattr', 18: 'seipd', 19: 'mdc'}.get(tag)
+        return a and [pre + a + sfx for sfx in ('_plain', '_254', '_255', '_254_salted', '_254_simple', '_255_salted', '_card', '_gnu')]
+    return {8: 'compressed', 9: 'sed', 10: 'marker', 11: 'literal', 12: 'trust', 13: 'userid', 17: 'uattr', 18: 'seipd', 19: 'mdc'}.get(tag)
 
 
 class H:
@@ -292,6 +292,7 @@ def _run(h):
         gen.append(('userid', seq(b(b'\xcd'), b(rng.choice(['Alice <a@b>', 'café', '', 'x' * 300]).encode()))))
         gen.append(('pub_rsa', seq(b(b'\xc6'), b(b'\x04'), z(rng.randrange(2**32)), b(b'\x01'), z(rng.getrandbits(rng.choice([1, 8, 1023, 1024, 2048])) | 1), z(65537))))
         gen.append(('mdc', seq(b(b'\xd3'), b(bytes(rng.randrange(256) for _ in range(20))))))
+        gen.append(('trust', seq(b(b'\xcc'), b(bytes(rng.randrange(256) for _ in range(rng.choice([0, 1, 2, 2, 3, 5, 40])))))))     # ring-trust packets of any length
         gen.append(('skesk_iter', seq(b(b'\xc3'), b(b'\x04'), z(rng.choice([7, 8, 9, 3])), b(b'\x03'), z(rng.choice([2, 8, 10])), b(bytes(rng.randrange(256) for _ in range(8))), z(rng.randrange(256)), b(bytes(rng.randrange(256) for _ in range(rng.choice([0, 17, 33])))))))
         gen.append(('pkesk_rsa', seq(b(b'\xc1'), b(b'\x03'), b(bytes(rng.randrange(256) for _ in range(8))), b(b'\x01'), z(rng.getrandbits(2047) | 1))))
     for name, val in gen:
